@@ -1048,8 +1048,8 @@ def render(sites: list[Site], probe: dict) -> str:
             "def indexSites : List IndexSite := ["]
     rows = []
     for s in sites:
-        rows.append("  { file := %s, func := %s, line := %d, kind := %s,\n    operand := %s, source := %s, bound := %s,\n    guard := Guard.%s, guardRef := %s,\n    entries := [%s] }" % (
-            lstr(s.file.replace("torcheval/metrics/", "")), lstr(s.func), s.line, lstr(s.kind), lstr(s.operand), lstr(s.source), lstr(s.bound),
+        rows.append("  { file := %s, func := %s, line := %d, kind := %s,\n    operand := %s, source := %s, rawRoots := %s, bound := %s,\n    guard := Guard.%s, guardRef := %s,\n    entries := [%s] }" % (
+            lstr(s.file.replace("torcheval/metrics/", "")), lstr(s.func), s.line, lstr(s.kind), lstr(s.operand), lstr(s.source), lstr(",".join(s.raw_roots)), lstr(s.bound),
             s.guard, lstr(s.guard_ref), ", ".join(lstr(e) for e in s.entries)))
     out.append(",\n".join(rows))
     out += ["]", "", "end TE.Gen", ""]
